@@ -42,7 +42,10 @@ CLAIMS = {
  "C07": dict(
    text="Proof: a submatrix accepted by validViolator (in range, duplicate-free, |detL|>=2) refutes TU in Mathlib's sense; minimalViolator "
         "gives det=+-2 and TU of every one-row-one-column deletion. Tie: every 'no' of CMRtuTest with a submatrix requested (greedy and "
-        "naive search, three algorithms, option masks) is validated by these deciders on the C01 domains.",
+        "naive search, three algorithms, option masks) is validated by these deciders on the C01 domains. Extension C07Minimal: a ternary square "
+        "matrix all of whose proper minors are 0,+-1 but which is not TU has determinant +-2 (Schur-complement induction), and every ternary "
+        "non-TU matrix has a submatrix that the judge's minimalViolator accepts (isTU = false <-> such a certificate exists), so the judge's "
+        "demand on violators is neither vacuous nor more than the library can meet.",
    technique="Lean 4 certificate-checker soundness theorems + validation of every returned violator", design="5/C07"),
  "C02": dict(
    text="Proof: the regularity oracle (row-by-row signing search with TU pruning) is proved sound and complete: isRegular M <-> M is 0/1 and "
